@@ -11,6 +11,7 @@ import VrlProofs.Lemmas.KindUnion
 import VrlProofs.Lemmas.KindSuperset
 import VrlProofs.Lemmas.KindInsert
 import VrlProofs.Lemmas.KindGetNeg
+import VrlProofs.Lemmas.KindRemove
 
 namespace C19
 open Spec
@@ -177,5 +178,22 @@ theorem at_sound_class (v : Value) (K : Kind) (p : Path) (hs : v.Sorted = true)
           have hg := Spec.mem_upgradeUndefined _ _ h
           simp only [Value.get, Kind.get, Bool.not_true, Bool.false_or, Bool.and_eq_true]
           exact ⟨h, hg⟩
+
+/-- **Removal at the root is sound** (every value, kind and compaction flag): the emptied value
+    belongs to the kind left behind, the removed value to the returned kind. Removal at non-root
+    paths is unsound in the witnessed classes `D_remove_shift`, `D_remove_neg_underflow` (panic),
+    `D_remove_neg_gap`, `D_remove_through_unknown`, `D_compact_union_alt`, `D_compact_optional_known`,
+    `D_minlen_counts_optional`; no theorem is claimed there. -/
+theorem remove_root_sound (v : Value) (K : Kind) (c : Bool) : removeLawM v K [] c = true := by
+  unfold removeLawM
+  rw [Spec.remove_root_eq]
+  simp only [Value.remove, Value.removeOpt, removeLaw, removedLaw, Option.getD_some]
+  cases hm : mem v K with
+  | false => rfl
+  | true =>
+    have h1 := Spec.mem_emptied v K hm
+    have h2 := Spec.mem_upgradeUndefined_of_mem v K hm
+    simp only [Bool.not_true, Bool.false_or, Bool.and_eq_true]
+    exact ⟨h1, h2⟩
 
 end C19
